@@ -75,7 +75,7 @@ class C19(Check):
             "sanitizer report, no abnormal termination, no hang; open returns a netCDF error or the inquiries are self-consistent; header "
             "fetches (MPI-IO reads during open, counted by the shim) <= size/chunk + 3 and peak library heap <= 64 x file size + 8 MiB "
             "(logical resource bounds, no wall-clock).  The sanitizer side of the property is additionally monitored in every workload of "
-            "every other check.  distinct = distinct (seed, mutation kind, outcome) tuples")
+            "every other check, and a sample of valid programs of the C07/C01/C02 generators is run here under the memory-safety monitors.  distinct = distinct (seed, mutation kind, outcome) tuples")
     assumptions = ["the sanitizer runtime returns NULL for allocations above 2 GiB (allocator_may_return_null) so absurd sizes surface as NC_ENOMEM instead of an abort"]
 
     def generate(self, tier, rng):
@@ -104,11 +104,22 @@ class C19(Check):
                 grp.append(("big%d:valid%d" % (k + j, s.version), b))
             yield make_case("c19_big_%05d" % k, 1 if (k // 3) % 2 else 2, grp)
 
+        # "... and for every script executed by the other properties' generators when run against the sanitizer build": a
+        # sample of valid programs of three generators that stress metadata (attribute overwrites with other types and sizes,
+        # renames, deletes), blocking and nonblocking data paths; only the memory-safety monitors are applied to them here
+        from . import c07, c01, c02
+        nv = 120 if tier == "quick" else 1500
+        for k in range(nv):
+            yield c07.gen_case(rng, 900000 + k, rng.choice([1, 1, 2]), safe=(rng.random() < 0.3))
+        for k in range(nv // 3):
+            yield c01.gen_case(rng, 900000 + k, rng.choice([1, 2, 3]))
+            yield c02.gen_case(rng, 900000 + k, rng.choice([1, 2, 3]))
+
     def features(self, res):
         return res.case.name
 
     def hang_site(self, res, oc):
-        for f in res.case.meta["files"]:
+        for f in res.case.meta.get("files", []):
             for e in oc:
                 if e is not None and e.line in (f["open"], f["sweep"], f["read"], f["close"]):
                     kind = f["tag"].split(":")[1].rstrip("0123456789abcdef=@")
@@ -118,6 +129,9 @@ class C19(Check):
     def oracle(self, res):
         v = []
         m = res.case.meta
+        if "files" not in m:
+            self.count("valid_programs_monitored")
+            return v          # a valid program of another generator: sanitizer / abort / hang / invariant monitors only
         for rank in range(res.case.nprocs):
             ret = res.ret(rank)
             for f in m["files"]:
